@@ -11,7 +11,7 @@
    renderings; derivations of the published grammar). *)
 From Coq Require Import ZArith NArith List Bool String.
 From Coq.Strings Require Import Byte.
-From Verif Require Import Lanes Common Values Scan Numbers Tokens Reader Configs ScanProofs FidelityProofs NumLiteral FlagProofs RoundTrip.
+From Verif Require Import Lanes Common Values Scan Numbers Tokens Reader Configs ScanProofs FidelityProofs NumLiteral FlagProofs RoundTrip RoundTripWs.
 Import ListNotations.
 Local Open Scope N_scope.
 
@@ -39,6 +39,15 @@ Theorem C03_term_anywhere : forall c, In c all_cfgs -> forall o handler xe xh so
   Reads c o handler xe xh sort m e s t (cur s + N.of_nat (List.length (pr t))).
 Proof. exact (fun c Hc o handler xe xh sort m e n => read_term c Hc o handler xe xh sort m e n). Qed.
 
+
+(* EVERY rendering with respect to trivia: any run of white space, commas and complete line comments in front of each
+   element (none needed in front of the first, at least one byte between two elements) and in front of the closer *)
+Theorem C03_document_every_trivia_rendering : forall c o m a, In c all_cfgs -> awf a ->
+  slice m 0 (List.length (prg a)) = prg a ->
+  exists r s n, run_doc c o m (N.of_nat (List.length (prg a))) = Ret r s /\
+                r_value r = Some n /\ denotes c (erase a) n /\ r_err r = EOk /\ r_eof r = false.
+Proof. exact read_document_ws. Qed.
+
 (* non-vacuity: [1 (:a -20) [] :kw 18446744073709551616] is a well-formed term of the fragment, and this is its text *)
 Example C03_fragment_example :
   let t := TVec [TInt false ["1"%byte]; TList [TKw ["a"%byte]; TInt true ["2"; "0"]%byte]; TVec []; TKw ["k"; "w"]%byte;
@@ -47,5 +56,6 @@ Example C03_fragment_example :
 Proof. split; [cbn; repeat split; try discriminate; try reflexivity; left; discriminate|reflexivity]. Qed.
 
 Print Assumptions C03_document_fragment.
+Print Assumptions C03_document_every_trivia_rendering.
 Print Assumptions C03_symbol_partial.
 Print Assumptions C03_keyword_partial.
